@@ -8,6 +8,9 @@ Tie of Model/Fasta.lean to fasta.py / formulas.py:
   prefixes through `formula()`; random FASTA texts through `read_fasta` (iterable of lines) and
   through real files (`Sequence.load/loadall`, universal newlines, type from the extension);
 * real code only (oracle, permutation, sum of two parts): a few sequences of 10 000 .. 30 000 codes;
+  FASTA files opened through symbolic links (plain / relative / chained / hard links, linked directories) whose
+  names carry another or no extension: typed by the name they are opened under; Sequence objects of every type
+  after copy.copy / copy.deepcopy / pickle (every protocol), judged by the per-code sum oracle;
 * direct oracle: sums over the residue entries of the real tables in exact `Fraction`s, the
   record structure of the text recomputed independently.
 """
@@ -587,6 +590,203 @@ def stream_files(run: Run, fasta, batch: Batch, n):
                 batch.ask("seq %s %s" % (ty, hx(want_seq)), chk2)
 
 
+EXT_RULE = {".fna": "dna", ".ffn": "dna", ".faa": "aa", ".frn": "rna"}
+
+
+def run_link_case(fasta, na, case, root: Path):
+    """a FASTA text stored under one name and opened under another (a symbolic link, possibly a chain / a relative
+    link / a link in a linked directory): it is typed by the extension of the name it is OPENED under; every record
+    is judged by the per-code sum oracle of that type.  Returns [(what, details, clause)]."""
+    bad = []
+    shutil.rmtree(root, ignore_errors=True)
+    (root / "store").mkdir(parents=True)
+    try:
+        target = root / "store" / case["stored_as"]
+        target.write_text(case["text"])
+        opened = root / case["opened_as"]
+        how = case["link"]
+        if how == "symlink":
+            os.symlink(str(target), str(opened))
+        elif how == "relative":
+            os.symlink(os.path.join("store", case["stored_as"]), str(opened))
+        elif how == "chain":
+            mid = root / ("mid" + case["mid_ext"])
+            os.symlink(str(target), str(mid))
+            os.symlink(str(mid), str(opened))
+        elif how == "hardlink":
+            os.link(str(target), str(opened))
+        else:       # "dirlink": the directory is a link, the file name is the stored one
+            os.symlink(str(root / "store"), str(root / case["opened_as"]))
+            opened = root / case["opened_as"] / case["stored_as"]
+        name = str(opened)
+        explicit = case["type"]
+        ty = explicit if explicit is not None else EXT_RULE.get(name[-4:], "aa")
+        try:
+            alls = list(fasta.Sequence.loadall(name, type=explicit))
+            first = fasta.Sequence.load(name, type=explicit)
+        except Exception as ex:  # noqa
+            return [("Sequence.load / loadall of a file opened through a link raised %s: %s" % (type(ex).__name__, str(ex)[:100]),
+                     {}, "raises")]
+        recs = [(h, s) for h, s in case["records"]]
+        if [a.name for a in alls] != [h for h, _ in recs] or first.name != recs[0][0]:
+            bad.append(("Sequence.loadall of a file opened through a link does not yield one sequence per header",
+                        dict(got=[a.name for a in alls]), "read_fasta"))
+            return bad
+        for a, (h, s) in list(zip(alls, recs)) + [(first, recs[0])]:
+            orc = oracle_sequence(fasta, ty, s, na)
+            obs = observe(a)
+            got = exact_counts(a.labile_formula)
+            wrong = [str(k) for k in set(orc["atoms"]) | set(got)
+                     if not close(float(orc["atoms"].get(k, 0)), float(got.get(k, 0)), rel=1e-9, abs_=1e-9)]
+            wrong += [k for k in ("vol", "charge", "mass", "dmass", "density") if not close(float(orc[k]), obs[k], rel=1e-9, abs_=1e-7)]
+            if a.sequence != s.replace(" ", "") or wrong:
+                bad.append(("a record loaded from a file opened as %r (stored as %r) is not the sum of its residues in the table "
+                            "of the type the opened name's extension gives (%s): %s differ" % (
+                                os.path.basename(name), case["stored_as"], ty, ", ".join(wrong[:6]) or "sequence"),
+                            dict(record=h, expected_type=ty, formula=str(a.labile_formula), mass=a.mass,
+                                 expected_mass=float(orc["mass"])), "extension"))
+                break
+    finally:
+        shutil.rmtree(root, ignore_errors=True)
+    return bad
+
+
+def gen_link_case(rng, i):
+    exts = [".fna", ".ffn", ".faa", ".frn", "", ".fa", ".fasta", ".txt"]
+    typed = exts[:4]
+    recs = [((">r%d %s" % (k, "x" * rng.randint(0, 5))).rstrip(), "".join(rng.choice("ACGT") for _ in range(rng.randint(1, 60))))
+            for k in range(rng.randint(1, 3))]
+    text = "".join(h + "\n" + s[:len(s) // 2] + "\n" + s[len(s) // 2:] + "\n" for h, s in recs)
+    a = rng.choice(typed) if rng.random() < 0.7 else rng.choice(exts)       # the opened name
+    b = rng.choice([e for e in exts if EXT_RULE.get(e, "aa") != EXT_RULE.get(a, "aa")] if rng.random() < 0.8 else exts)
+    stored = rng.choice(["0a1b2c3d", "blob", "genes", "reads"]) + b
+    link = rng.choice(["symlink", "symlink", "relative", "chain", "hardlink", "dirlink"])
+    case = dict(link_case=True, link=link, stored_as=stored, opened_as=("reads%d" % i) + a, mid_ext=rng.choice(exts),
+                type=rng.choice([None, None, None, None, "aa", "dna", "rna"]), text=text, records=[list(r) for r in recs])
+    if link == "dirlink":
+        case["opened_as"] = "dir%d%s" % (i, a)
+    if i == 0:
+        case.update(link="symlink", stored_as="0a1b2c3d", opened_as="reads.fna", type=None)
+    if i == 1:
+        case.update(link="symlink", stored_as="a.fna", opened_as="latest", type=None)
+    return case
+
+
+def stream_links(run: Run, fasta, n, na):
+    rng = run.rng
+    root = SCRATCH / "links"
+    try:
+        probe = SCRATCH / "probe-link"
+        SCRATCH.mkdir(parents=True, exist_ok=True)
+        if probe.is_symlink():
+            probe.unlink()
+        os.symlink("nowhere", str(probe))
+        probe.unlink()
+    except (OSError, NotImplementedError, AttributeError):
+        run.notes.append("no symbolic links on this file system: the link stream is skipped")
+        return
+    for i in range(n):
+        case = gen_link_case(rng, i)
+        run.count(key=("link", case["link"], case["stored_as"], case["opened_as"], case["type"], case["text"]), nontrivial=True,
+                  tag="file:link:" + case["link"], sample=repr({k: case[k] for k in ("link", "stored_as", "opened_as", "type")}) if i < 2 else None)
+        run.last_input = case
+        for what, info, clause in run_link_case(fasta, na, case, root):
+            run.violation(what, dict(case, **info), clause=clause)
+
+
+def copy_of(seq, how):
+    import copy
+    import pickle
+    if how == "copy":
+        return copy.copy(seq)
+    if how == "deepcopy":
+        return copy.deepcopy(seq)
+    if how == "deepcopy-in-list":
+        return copy.deepcopy([seq, seq])[1]
+    return pickle.loads(pickle.dumps(seq, protocol=int(how.split("-")[1])))
+
+
+def run_copy_case(fasta, na, case):
+    """a Sequence that was pickled / copied is still the Sequence of its codes: judged by the per-code sum oracle
+    of the type it was built with; the original is judged again afterwards"""
+    bad = []
+    ty, s, how = case["type"], case["full"], case["how"]
+    orc = oracle_sequence(fasta, ty, s, na)
+    cleaned = s.split("*", 1)[0].replace(" ", "")
+    try:
+        if case["via"] == "load":
+            root = SCRATCH / "copies"
+            root.mkdir(parents=True, exist_ok=True)
+            p = root / ("c" + {"dna": ".fna", "rna": ".frn", "aa": ".faa"}[ty])
+            p.write_text(">rec\n" + cleaned + "\n")
+            try:
+                q = fasta.Sequence.load(str(p))
+            finally:
+                p.unlink()
+        else:
+            q = fasta.Sequence("rec", s, type=ty)
+    except Exception as ex:  # noqa
+        return [("building a sequence over the code table raised %s" % type(ex).__name__, {}, "accept")]
+    name = q.name
+    try:
+        r = copy_of(q, how)
+    except Exception as ex:  # noqa
+        return [("%s of a %s Sequence raised %s: %s" % (how, ty, type(ex).__name__, str(ex)[:80]), {}, "raises")]
+    for label, obj in (("the %s of a %s Sequence" % (how, ty), r), ("a %s Sequence after it was copied (%s)" % (ty, how), q)):
+        try:
+            obs = observe(obj)
+            got = exact_counts(obj.labile_formula)
+            nat = exact_counts(obj.natural_formula)
+            form = exact_counts(obj.formula)
+        except Exception as ex:  # noqa
+            bad.append(("%s cannot be inspected: %s" % (label, type(ex).__name__), {}, "raises"))
+            continue
+        wrong = [str(k) for k in set(orc["atoms"]) | set(got)
+                 if not close(float(orc["atoms"].get(k, 0)), float(got.get(k, 0)), rel=1e-9, abs_=1e-9)]
+        wrong += [k for k in ("vol", "charge", "mass", "dmass", "density") if not close(float(orc[k]), obs[k], rel=1e-9, abs_=1e-7)]
+        if form != got:
+            wrong.append("formula != labile_formula")
+        # natural form: the labile hydrogens H[1] counted as H
+        folded = {}
+        for k, v in got.items():
+            kk = (1, 0, k[2]) if k[0] == 1 and k[1] == 1 else k
+            folded[kk] = folded.get(kk, 0) + v
+        if any(not close(float(folded.get(k, 0)), float(nat.get(k, 0)), rel=1e-9, abs_=1e-9) for k in set(folded) | set(nat)):
+            wrong.append("natural_formula")
+        if obj.sequence != cleaned or obj.name != name:
+            wrong.append("name/sequence")
+        if wrong:
+            bad.append(("%s is not the sum of its residues: %s differ" % (label, ", ".join(wrong[:6])),
+                        dict(formula=str(obj.labile_formula), mass=obs["mass"], expected_mass=float(orc["mass"]),
+                             volume=obs["vol"], expected_volume=float(orc["vol"])), "sum"))
+    return bad
+
+
+def stream_copies(run: Run, fasta, n, na):
+    import pickle
+    rng = run.rng
+    hows = ["copy", "deepcopy", "deepcopy-in-list"] + ["pickle-%d" % p for p in range(pickle.HIGHEST_PROTOCOL + 1)]
+    fixed = [("dna", "ACGT"), ("rna", "ACGU"), ("aa", "ACGT"), ("dna", ""), ("rna", "GGN"), ("dna", "GATTACA")]
+    for i in range(n):
+        ty = TYPES[i % 3]
+        codes = sorted(fasta.CODE_TABLES[ty].keys())
+        if i < len(fixed):
+            ty, s = fixed[i]
+        else:
+            k = rng.choice([1, 3, 12, 40, 300])
+            pool = codes if rng.random() < 0.6 else [c for c in codes if c in "ACGT"]
+            s = "".join(rng.choice(pool) for _ in range(k))
+            if rng.random() < 0.15:
+                s = s[:len(s) // 2] + " " + s[len(s) // 2:] + "*" + rng.choice(codes)
+        case = dict(copy_case=True, type=ty, full=s, how=hows[(i // 3 + i) % len(hows)] if i >= len(fixed) else hows[i % len(hows)],
+                    via="load" if (i % 5 == 4 and s and " " not in s and "*" not in s) else "constructor")
+        run.count(key=("copy", ty, s, case["how"], case["via"]), nontrivial=True, tag="copy:%s:%s" % (ty, case["how"].split("-")[0]),
+                  sample=repr(case)[:200] if i < 2 else None)
+        run.last_input = case
+        for what, info, clause in run_copy_case(fasta, na, case):
+            run.violation(what, dict(case, **info), clause=clause)
+
+
 def guarded(run, what, fn, *args):
     """an exception escaping the real code inside a stream is a failure of the property on the
     last input that stream built (the stream's remaining cases are lost, the other streams run)"""
@@ -631,6 +831,8 @@ def run(run: Run) -> int:
         guarded(run, "prefix dispatch", stream_prefix, run, fasta, formula, batch, 300 if quick else 5000)
         guarded(run, "read_fasta", stream_fasta, run, fasta, batch, 1500 if quick else 30000)
         guarded(run, "Sequence.load/loadall", stream_files, run, fasta, batch, 200 if quick else 3000)
+        guarded(run, "files opened through links", stream_links, run, fasta, 60 if quick else 1500, na)
+        guarded(run, "copies and pickles", stream_copies, run, fasta, 150 if quick else 4000, na)
         batch.run()
     finally:
         shutil.rmtree(SCRATCH, ignore_errors=True)
@@ -655,6 +857,22 @@ def replay(data) -> int:
         inp = v["input"]
         label = "%s" % v.get("what", v.get("corr"))
         try:
+            if inp.get("link_case") or inp.get("copy_case"):
+                if inp.get("link_case"):
+                    case = {k: inp[k] for k in ("link_case", "link", "stored_as", "opened_as", "mid_ext", "type", "text", "records")}
+                    print("%s\n   file stored as %r, opened as %r (%s), type=%r" % (label, case["stored_as"], case["opened_as"],
+                                                                                  case["link"], case["type"]))
+                    SCRATCH.mkdir(parents=True, exist_ok=True)
+                    bad = run_link_case(fasta, na, case, SCRATCH / "links")
+                else:
+                    case = {k: inp[k] for k in ("copy_case", "type", "full", "how", "via")}
+                    print("%s\n   Sequence('rec', %r, type=%r) [%s] -> %s" % (label, case["full"][:120], case["type"], case["via"], case["how"]))
+                    bad = run_copy_case(fasta, na, case)
+                for what, info, _ in bad:
+                    print("   code fails: %s\n      %s" % (what, info))
+                if not bad:
+                    print("   code: every judgement of the case holds")
+                continue
             if "full" in inp:
                 s_, ty = inp["full"], inp["type"]
                 label += " | Sequence(%r, type=%r)" % (s_ if len(s_) < 120 else s_[:120] + "…", ty)
